@@ -123,6 +123,26 @@ class ENum:
     def __neg__(self):
         return ENum(-self.val, self.err, None if self.const is None else -self.const)
 
+    def __pow__(self, n):
+        # x ** n for a small integer n: libm pow, relative error n * err(x) + one rounding
+        if isinstance(n, ENum) and n.const is not None:
+            n = n.const
+        if isinstance(n, float) and n == int(n):
+            n = int(n)
+        if not isinstance(n, int) or isinstance(n, bool) or not (-8 <= n <= 8):
+            raise EngineError(f"E-mode: power with exponent {n!r}")
+        if n == 0:
+            return ENum.lift(1.0)
+        if self.const is not None:
+            c = self.const ** n
+            return ENum(realval(c), z3.RealVal(0), c)
+        val = self.val
+        for _ in range(abs(n) - 1):
+            val = val * self.val
+        if n < 0:
+            val = 1 / val
+        return ENum(val, z3.simplify(abs(n) * self.err + (U if abs(n) > 1 else z3.RealVal(0))))
+
     def __bool__(self):
         if self.const is not None:
             return bool(self.const)
